@@ -281,3 +281,38 @@ def show_call(c):
 
 def show_prog(calls):
     return "; ".join(show_call(c) for c in calls)
+
+
+def stmt_trees(stmt):
+    """Expression trees of a real statement, for the specifications that evaluate statements
+    (Access, Stepper, Rewrite)."""
+    from dagrt.language import (Assign, AssignFunctionCall, FailStep, Raise, SwitchPhase,
+                                YieldState)
+    rec = {"kind": stmt_kind(stmt), "guard": exprs.to_json(getattr(stmt, "condition", True)),
+           "lhs": [], "sub": [], "rhs": ["none"], "loops": [], "args": [], "kw": [], "time": ["none"],
+           "f": "", "comp": "", "tid": "", "to": "", "err": ""}
+    if isinstance(stmt, Assign):
+        rec["lhs"] = [stmt.assignee]
+        sub = stmt.assignee_subscript
+        if sub and not isinstance(sub, tuple):
+            sub = (sub,)
+        rec["sub"] = [exprs.to_json(s) for s in (sub or ())]
+        rec["rhs"] = exprs.to_json(stmt.rhs)
+        rec["loops"] = [[i, exprs.to_json(lo), exprs.to_json(hi)] for i, lo, hi in stmt.loops]
+    elif isinstance(stmt, AssignFunctionCall):
+        rec["lhs"] = list(stmt.assignees)
+        rec["f"] = stmt.function_id
+        rec["args"] = [exprs.to_json(a) for a in stmt.parameters]
+        rec["kw"] = [[k, exprs.to_json(v)] for k, v in sorted(dict(stmt.kw_parameters).items())]
+    elif isinstance(stmt, YieldState):
+        rec["rhs"] = exprs.to_json(stmt.expression)
+        rec["time"] = exprs.to_json(stmt.time)
+        rec["comp"] = stmt.component_id
+        rec["tid"] = stmt.time_id
+    elif isinstance(stmt, SwitchPhase):
+        rec["to"] = stmt.next_phase
+    elif isinstance(stmt, Raise):
+        rec["err"] = stmt.error_condition.__name__
+    elif isinstance(stmt, FailStep):
+        pass
+    return rec
